@@ -110,7 +110,10 @@ def check_rendered(files, blocks, backend="atlas", baseline=None):
                 total -= sum(t.count(ln) for t in baseline.values())
             # a line that is a substring of another requested line is counted there too
             total -= sum(m * other.count(ln) for (f2, other), m in want_count.items() if other != ln and ln in other)
-            if total != cnt:
+            # the same text may be requested in several fields (an include in the source AND the header): each rendered
+            # field accounts for its own occurrences
+            elsewhere = sum(m for (f2, l2), m in want_count.items() if l2 == ln and f2 != field and f2 in regs)
+            if total != cnt + elsewhere:
                 problems.append(f"{field}: line {ln!r} also appears outside its region ({total} occurrences in the package)")
     # the lines of one block keep their order (they form a subsequence of the region)
     for name, fields in blocks:
@@ -297,6 +300,14 @@ def build_cases(tier):
         cases.append((cid, [block_md("blk", {"body_includes": ["Pkg/Sub/interface/MET.h", "Pkg/Sub/interface/Met.h", "pkg/sub/interface/met.h"]})], (0,), backend))
         cid += 1
         cases.append((cid, [block_md("n1", {"body_includes": ["Pkg/A.h", "Pkg/a.h"]}), block_md("n2", {"body_includes": ["PKG/A.H", "Other.h"]})], (0, 1), backend))
+        cid += 1
+    # the same include path in a body_includes AND a header_includes list (one block / two blocks): each field keeps its line
+    for backend in ("atlas", "cms_aod", "cms_miniaod"):
+        cases.append((cid, [block_md("blk", {"body_includes": ["tools/First.h", "tools/Shared.h", "tools/Last.h"], "header_includes": ["tools/Decl.h", "tools/Shared.h"]})], (0,), backend))
+        cid += 1
+        cases.append((cid, [block_md("decl", {"header_includes": ["tools/Decl.h", "tools/Shared.h"]}), block_md("impl", {"body_includes": ["tools/First.h", "tools/Shared.h", "tools/Last.h"]})], (0, 0), backend))
+        cid += 1
+        cases.append((cid, [block_md("impl", {"body_includes": ["tools/Shared.h", "tools/Last.h"]}), block_md("decl", {"header_includes": ["tools/Shared.h"]})], (0, 1), backend))
         cid += 1
     # ATLAS: the same for both include fields
     for f in ("body_includes", "header_includes"):
